@@ -277,6 +277,9 @@ func run(id, tier, only, repo, verifDir, solver string, verbose, noReplay bool, 
 	if inconclusive > 0 && exit == 0 {
 		exit = 2
 	}
+	if violations > 0 {
+		exit = 1 // a natively reproduced violation outranks mismatches and inconclusive parts
+	}
 	writeEvidence(verifDir, id, tier, seed, results, replayNotes, violations, knownHits, validated, time.Since(t0), loaded.LoadTime, solver, tc)
 	fmt.Printf("[%s] done: exit=%d violations=%d known=%d inconclusive=%d wall=%.1fs\n", id, exit, violations, knownHits, inconclusive, time.Since(t0).Seconds())
 	return exit
